@@ -48,3 +48,101 @@ let ghost before = res@;''',
 
 UNITS = {'c17_escape_string': (['C17'], escape_unit)}
 SEARCH = {'c17_escape_string': ['c17_escape']}
+
+
+from vx.unit import WriteMacro  # noqa: E402
+
+R = 'src/registry/mod.rs'
+
+SDL_SHIMS = r'''
+// field-subset shim of registry::MetaInputValue (conformance-checked); Deprecation is extracted verbatim below
+pub struct MetaInputValue { pub name: String, pub ty: String, pub deprecation: Deprecation, pub default_value: Option<String> }
+'''
+
+SDL_SPEC = r'''
+pub open spec fn iv_head(iv: MetaInputValue) -> Seq<char> {
+    iv.name@ + ": "@ + iv.ty@ + (match iv.default_value { Some(d) => " = "@ + d@, None => Seq::<char>::empty() })
+}
+
+// what write_deprecated must append: nothing, ` @deprecated`, or ` @deprecated(reason: "<body>")` with body decoding to the reason
+pub open spec fn is_deprecated_directive(out: Seq<char>, d: Deprecation) -> bool {
+    match d {
+        Deprecation::NoDeprecated => out.len() == 0,
+        Deprecation::Deprecated { reason: None } => out == " @deprecated"@,
+        Deprecation::Deprecated { reason: Some(r) } => {
+            let pre = " @deprecated(reason: \""@; let post = "\")"@;
+            out.len() >= pre.len() + post.len() && out.take(pre.len() as int) == pre && out.skip(out.len() - post.len()) == post
+            && gql_string_decode(out.subrange(pre.len() as int, out.len() - post.len())) == Some(r@)
+        }
+    }
+}
+'''
+
+
+def sdl_unit(kf):
+    u = Unit('c17_input_value', ['C17'], 'write_input_value / write_deprecated emit name, type, default and the deprecation directive')
+    u.kf = kf
+    u.prelude('string_write')
+    u.prelude('sdl_sink')
+    u.prelude('gql_string', tag='spec')
+    u.extract_type(R, ['enum Deprecation'])
+    u.trusted(SDL_SHIMS, 'MetaInputValue field-subset shim')
+    u.shim_conformance(R, ['struct MetaInputValue'], [('name', 'String'), ('ty', 'String'), ('deprecation', 'Deprecation'), ('default_value', 'Option<String>')])
+    u.spec(SDL_SPEC, 'deprecation directive spec')
+    u.trusted('''
+// escape_string is proved in unit c17_escape_string; here only its contract is used (modular: callers see the contract, not the body)
+#[verifier::external_body]
+fn escape_string(s: &str) -> (r: String) ensures gql_string_decode(r@) == Some(s@) { unimplemented!() }
+''', 'escape_string contract (proved in c17_escape_string)')
+    u.extract_fn(F, ['fn write_deprecated'],
+                 rewrites=[WriteMacro(count=2, infallible=True),
+                           Sub('sdl.write_disp(&(escape_string(reason))).ok();', 'let esc = escape_string(reason); sdl.write_disp(&(esc)).ok();', count='*', rule='R-stmt')],
+                 head_proof='proof { @REVEALS@ reveal_strlit(" @deprecated(reason: \\""); reveal_strlit("\\")"); reveal_strlit(" @deprecated"); }',
+                 ensures=['final(sdl)@.len() >= old(sdl)@.len() && final(sdl)@.take(old(sdl)@.len() as int) == old(sdl)@',
+                          'is_deprecated_directive(final(sdl)@.skip(old(sdl)@.len() as int), *deprecation)'],
+                 inserts=[('after', 'sdl.write_str("\\")").ok();', '''proof {
+    let o = old(sdl)@; let n = sdl@; let pre = " @deprecated(reason: \\""@; let post = "\\")"@;
+    assert(n =~= o + pre + esc@ + post);
+    assert(n.skip(o.len() as int).subrange(pre.len() as int, n.skip(o.len() as int).len() - post.len()) =~= esc@);
+}'''),
+                          ('after', 'None => { sdl.write_str(" @deprecated").ok(); Ok::<(), core::fmt::Error>(()) }.ok(), };',
+                           '''proof {
+    let o = old(sdl)@; let n = sdl@;
+    match deprecation { Deprecation::Deprecated { reason: Some(r) } => {
+        let pre = " @deprecated(reason: \\""@; let post = "\\")"@;
+        let mid = n.subrange((o.len() + pre.len()) as int, n.len() - post.len());
+        assert(n.skip(o.len() as int).subrange(pre.len() as int, n.skip(o.len() as int).len() - post.len()) =~= mid);
+        assert(n.skip(o.len() as int).take(pre.len() as int) =~= pre);
+        assert(n.skip(o.len() as int).skip(n.skip(o.len() as int).len() - post.len()) =~= post);
+        assert(n.take(o.len() as int) =~= o);
+    }, Deprecation::Deprecated { reason: None } => { assert(n.skip(o.len() as int) =~= " @deprecated"@); assert(n.take(o.len() as int) =~= o); }, _ => {} }
+}''')])
+    u.extract_fn(F, ['fn write_input_value'],
+                 rewrites=[WriteMacro(count=2, infallible=True), Sub('_ = {', 'let _ = {', count='*', rule='R-stmt')],
+                 head_proof='proof { @REVEALS@ }',
+                 ensures=['''({
+            let o = old(sdl)@; let n = final(sdl)@;
+            let head = iv_head(*input_value);
+            n.len() >= o.len() + head.len() && n.take(o.len() as int) == o && n.subrange(o.len() as int, (o.len() + head.len()) as int) == head
+            && is_deprecated_directive(n.skip((o.len() + head.len()) as int), input_value.deprecation)
+        })'''],
+                 inserts=[('before', 'write_deprecated(sdl, &input_value.deprecation);', 'let ghost mid = sdl@;\nproof { let o = old(sdl)@; assert(mid.take(o.len() as int) =~= o); }'),
+                          ('after', 'write_deprecated(sdl, &input_value.deprecation);', '''proof {
+    let ghost o = old(sdl)@; let ghost n = sdl@;
+    let ghost head = iv_head(*input_value);
+    assert(mid =~= o + head);
+    assert(n.take(mid.len() as int) == mid);
+    assert(n.take(o.len() as int) =~= mid.take(o.len() as int));
+    assert(n.subrange(o.len() as int, (o.len() + head.len()) as int) =~= mid.skip(o.len() as int));
+    assert(n.skip((o.len() + head.len()) as int) =~= n.skip(mid.len() as int));
+}''')])
+    u.search_case('write_input_value', 'c17_input_value')
+    u.search_case('write_deprecated', 'c17_input_value')
+    return u
+
+
+UNITS['c17_input_value'] = (['C17'], sdl_unit)
+SEARCH['c17_input_value'] = ['c17_input_value']
+BOUNDED = {'C17': [dict(case='c17_sdl', function='src/registry/export_sdl.rs::write_description (+ the export_type / export_fields callers, through Schema::sdl_with_options) read back by parse_schema',
+                        bound='10 descriptions x 7 deprecation reasons x 3 defaults x {block, single-line} (about 280 dynamic schemas per run, seeded thinning)',
+                        why='write_description is String::replace / contains / repeat / format! plumbing with no contract-sized decision; Verus has no byte-level str reasoning; the re-parse half is the pest parser')]}
